@@ -19,7 +19,9 @@ from vf.gen import types as T
 P = 'C05'
 META = {
     'level': 'exploration',
-    'rule': ('part tree: generated containment trees (Mds > Vmd/Sco/AlertSystem/SystemContext/Clock/Battery > ...) '
+    'rule': ('part metadata: mex Metadata values with 0-4 sections of different dialects (generated ThisModel / ThisDevice / '
+             'Relationship with Host and Hosted / wsdl Location contents), schema-validated as wsx:Metadata, read back with '
+             'the hand-written reader; part tree: generated containment trees (Mds > Vmd/Sco/AlertSystem/SystemContext/Clock/Battery > ...) '
              'reconstructed by the MDIB, schema-validated as GetMdibResponse and read back; part roundtrip: '
              'every concrete XMLTypeBase/ContainerBase class of pm_types, msg_types, eventing/wsd/addressing/dpws/mex '
              'types and the descriptor/state containers; instances from reflection-driven hypothesis strategies '
@@ -281,11 +283,7 @@ EXCLUDED = {
     'sdc11073.xml_types.msg_types.MdDescription': 'only the empty value is writable (contains Mds)',
     'sdc11073.xml_types.msg_types.GetMdDescriptionResponse': 'only the empty value is writable (contains Mds)',
     'sdc11073.xml_types.msg_types.GetMdibResponse': 'body is a complete msg:Mdib tree (covered by C01/C07 through the real services)',
-    'sdc11073.xml_types.mex_types.Metadata': 'hand-written from_node/as_etree_node keyed by dialect (covered by C19 start-up exchange)',
-    'sdc11073.xml_types.mex_types.RelationshipMetadataSection': 'part of mex Metadata',
-    'sdc11073.xml_types.mex_types.ThisModelMetadataSection': 'part of mex Metadata',
-    'sdc11073.xml_types.mex_types.ThisDeviceMetadataSection': 'part of mex Metadata',
-    'sdc11073.xml_types.mex_types.LocationMetadataSection': 'part of mex Metadata',
+    'sdc11073.xml_types.mex_types.Metadata': 'hand-written from_node keyed by dialect: has a part of its own (metadata)',
     'sdc11073.xml_types.pm_types.PropertyBasedPMType': 'base class without members',
 }
 
@@ -405,8 +403,116 @@ def tree_case(ctx, nodes):
     return out
 
 
+# ------------------------------------------------------------------------------------- mex Metadata (hand-written reader)
+MEX = 'sdc11073.xml_types.mex_types.'
+SECTION_CLASSES = ('ThisModelMetadataSection', 'ThisDeviceMetadataSection', 'RelationshipMetadataSection',
+                   'LocationMetadataSection')
+SECTION_MEMBER = {'ThisModelMetadataSection': ('this_model', 'MetadataReference'),
+                  'ThisDeviceMetadataSection': ('this_device', 'MetadataReference'),
+                  'RelationshipMetadataSection': ('relationship', 'MetadataReference'),
+                  'LocationMetadataSection': ('wsdl_location', 'Location')}
+
+
+def st_metadata():
+    """A Metadata value as the provider builds it: sections of different dialects (each dialect at most once, any order),
+    the Dialect attribute left at the value that identifies the section class.  ThisModel / ThisDevice / Relationship
+    sections carry their embedded content (generated against the named DPWS schema types), the wsdl section a Location."""
+    from hypothesis import strategies as st
+    from sdc11073.xml_types import dpws_types
+    from vf.gen import xmlvalues as XV
+    dpws = '{http://docs.oasis-open.org/ws-dd/ns/dpws/2009/01}'
+    uri = XV.any_uri()
+    host = T.instance_spec(dpws_types.HostServiceType, 2, dpws + 'HostServiceType')
+    hosted = T.instance_spec(dpws_types.HostedServiceType, 2, dpws + 'HostedServiceType')
+    relationship = st.fixed_dictionaries({'Host': host, 'Hosted': st.lists(hosted, max_size=3)}).map(
+        lambda d: {'cls': MEX + 'MetaDataRelationship', 'set': d})
+    content = {'ThisModelMetadataSection': T.instance_spec(dpws_types.ThisModelType, 1, dpws + 'ThisModelType'),
+               'ThisDeviceMetadataSection': T.instance_spec(dpws_types.ThisDeviceType, 1, dpws + 'ThisDeviceType'),
+               'RelationshipMetadataSection': relationship}
+
+    def section(name):
+        # the library's section classes for embedded content require the content; a wsdl section is a Location
+        main = content[name].map(lambda c: {'MetadataReference': c}) if name in content else uri.map(lambda u: {'Location': u})
+        ident = st.one_of(st.just({}), uri.map(lambda u: {'Identifier': u}))
+        return st.tuples(main, ident).map(lambda t: {'cls': MEX + name, 'set': {**t[0], **t[1]}})
+    return st.lists(st.sampled_from(SECTION_CLASSES), unique=True, max_size=4).flatmap(
+        lambda names: st.tuples(*[section(n) for n in names]).map(list))
+
+
+def metadata_case(ctx, specs):
+    from sdc11073.xml_types import mex_types
+    out = []
+    md = mex_types.Metadata()
+    for spec in specs:
+        md.MetadataSection.append(T.build(spec))
+    names = [spec['cls'].split('.')[-1] for spec in specs]
+    ctx.case(specs, len(specs) >= 2, 'metadata', classes=tuple(names))
+    try:
+        node1 = md.as_etree_node(mex_types.Metadata.NODETYPE, _nsmap())
+    except Exception as ex:  # noqa: BLE001
+        if not R.exc_in_library(ex):
+            raise
+        return [(f'{P}/metadata/write-raises/{R.exc_sig(ex)}', f'{type(ex).__name__}: {str(ex)[:400]}')]
+    xml1 = etree.tostring(node1)
+    doc = etree.fromstring(xml1)
+    schema = probe_schema()
+    if not schema.validate(doc):
+        errs = [e.message for e in schema.error_log][:3]
+        out.append((f'{P}/metadata/schema-invalid/{_schema_bucket(errs[0] if errs else "")}',
+                    {'errors': errs, 'xml': xml1.decode()[:1500]}))
+    body = etree.Element('{http://www.w3.org/2003/05/soap-envelope}Body')  # the reader is handed the body of the envelope
+    body.append(etree.fromstring(xml1))
+    try:
+        back = mex_types.Metadata.from_node(body)
+    except Exception as ex:  # noqa: BLE001
+        if not R.exc_in_library(ex):
+            raise
+        return out + [(f'{P}/metadata/read-raises/{R.exc_sig(ex)}', {'error': f'{type(ex).__name__}: {str(ex)[:400]}',
+                                                                    'xml': xml1.decode()[:1500]})]
+    got = [type(sec).__name__ for sec in back.MetadataSection]
+    if got != names:
+        out.append((f'{P}/metadata/sections-changed', f'written {names}, read {got}'))
+        return out
+    for name, a, b in zip(names, md.MetadataSection, back.MetadataSection):
+        ca, cb = C.canon(a), C.canon(b)
+        if ca != cb:
+            d = C.diff(ca, cb)
+            out.append((f'{P}/metadata/value-changed/{name}.{_first_member(d)}',
+                        {'diff': [list(map(str, i)) for i in d[:3]], 'xml': xml1.decode()[:1500]}))
+        member, source = SECTION_MEMBER[name]
+        want, have = getattr(b, source), getattr(back, member)
+        same = (want == have) if isinstance(want, (str, type(None))) else (have is not None and C.canon(want) == C.canon(have))
+        if not same:
+            out.append((f'{P}/metadata/shortcut-member-differs/{member}',
+                        f'Metadata.{member} is not the content of its {name} after reading {xml1.decode()[:600]}'))
+    for member in {'this_model', 'this_device', 'relationship', 'wsdl_location'} - {SECTION_MEMBER[n][0] for n in names}:
+        if getattr(back, member) is not None:
+            out.append((f'{P}/metadata/absent-section-has-value/{member}',
+                        f'Metadata.{member} = {getattr(back, member)!r} although the document has no such section'))
+    try:
+        xml2 = etree.tostring(back.as_etree_node(mex_types.Metadata.NODETYPE, _nsmap()))
+    except Exception as ex:  # noqa: BLE001
+        if not R.exc_in_library(ex):
+            raise
+        return out + [(f'{P}/metadata/rewrite-raises/{R.exc_sig(ex)}', f'{type(ex).__name__}: {str(ex)[:400]}')]
+    if xml1 != xml2 and C.canon_elem(etree.fromstring(xml1)) != C.canon_elem(etree.fromstring(xml2)):
+        out.append((f'{P}/metadata/rewrite-differs', {'xml1': xml1.decode()[:1200], 'xml2': xml2.decode()[:1200]}))
+    return out
+
+
+def shard_metadata(ctx, n):
+    R.hyp_campaign(ctx, 'metadata', st_metadata(), lambda specs: metadata_case(ctx, specs), n,
+                   shrink_s=20 if ctx.tier == 'quick' else 120)
+
+
 def shard_tree(ctx, n):
     R.hyp_campaign(ctx, 'tree', st_tree(), lambda nodes: tree_case(ctx, nodes), n, shrink_s=20 if ctx.tier == 'quick' else 120)
+
+
+def shard_all(ctx, names, per_class, n_tree, n_metadata):
+    shard_metadata(ctx, n_metadata)
+    shard_tree(ctx, n_tree)
+    shard_classes(ctx, names, per_class)
 
 
 def run(ctx):
@@ -427,13 +533,20 @@ def run(ctx):
     per_class = 35 if ctx.tier == 'quick' else 500
     nshards = R.NPROC
     # interleave so that heavy classes spread over shards
-    jobs = [(names[i::nshards], per_class) for i in range(nshards)]
-    R.run_shards(ctx, __name__, 'shard_classes', jobs)
-    R.run_shards(ctx, __name__, 'shard_tree', [(6 if ctx.tier == "quick" else 400,)] * nshards)
+    # the two small parts run first in every shard, so a loaded machine cuts the tail of the class list (which starts at a
+    # position that depends on the seed) and never a whole part
+    jobs = []
+    for i in range(nshards):
+        mine = names[i::nshards]
+        k = ctx.seed % max(len(mine), 1)
+        jobs.append((mine[k:] + mine[:k], per_class, 6 if ctx.tier == 'quick' else 400, 12 if ctx.tier == 'quick' else 600))
+    R.run_shards(ctx, __name__, 'shard_all', jobs)
 
 
 def replay(part, case):
     if part == 'tree':
         return tree_case(R.Ctx(P, 'quick', 0, {}), case)
+    if part == 'metadata':
+        return metadata_case(R.Ctx(P, 'quick', 0, {}), case)
     found, _ = check_spec(case)
     return found
